@@ -29,6 +29,9 @@ unshare -m bash -c '
     mount -t overlay overlay -o lowerdir=/verif/.cache/target,upperdir=$NS_ALT/ov_upper,workdir=$NS_ALT/ov_work $NS_ALT/cache/target || exit 3
   fi
   mount --bind $NS_WT /repo
+  # cargo freshness is mtime-based and workspace crates hash the same in every checkout: make sure nothing built
+  # from another tree (e.g. /repo with a patch applied) in the shared lower layer is mistaken for fresh
+  find /repo/rs -name '*.rs' -newermt '1970-01-01' -print0 | xargs -0 touch
   mount --bind $NS_ALT/coq /verif/coq
   mount --rbind $NS_ALT/cache /verif/.cache
   mount --bind $NS_ALT/evidence /verif/evidence
